@@ -1482,7 +1482,11 @@ def pid_exists(pid):
         # to do here.
         return pid in pids()
     else:
-        return _psplatform.pid_exists(pid)
+        try:
+            return _psplatform.pid_exists(pid)
+        except OverflowError:
+            # PID does not fit the C pid type, so it cannot exist.
+            return False
 
 
 _pmap = {}
